@@ -197,11 +197,17 @@ def check_array(col, kind, st, T, elems, boxes, qpts, deep):
                 # magnitude per part (parts of a multipolygon may be wound differently, so only the
                 # per-part magnitudes are preserved, not the magnitude of their signed sum)
                 want = sum(abs(O.area2("polygon", p)) for p in polys) * T[0] * T[0] / 2.0
-                if len(polys) == 1 and abs(ar_before[i - a]) != want:
-                    raise core.HarnessError("oracle area disagrees with area before orientation")
-                if not (ar_after[i - a] >= 0 and ar_after[i - a] == want):
+                mag = sum(abs(ax * by) + abs(bx * ay) for p in polys for r in p
+                          for (ax, ay), (bx, by) in zip(r[:-1], r[1:])) * T[0] * T[0]
+                if mag >= 2 ** 52:
+                    col.count("area_clause_skipped_inexact")     # float64 shoelace no longer exact
+                    continue
+                # statement: non-negative with unchanged magnitude (single polygon: literally |before|;
+                # multipolygon: the sum of the per-part magnitudes, from the exact oracle)
+                ref = abs(ar_before[i - a]) if len(polys) == 1 else want
+                if not (ar_after[i - a] >= 0 and ar_after[i - a] == ref):
                     col.violation(f"{kind}.area", dict(c, index=i),
-                                  f"valid element {jelem(e)}: area {ar_before[i - a]} -> {ar_after[i - a]}, expected {want}")
+                                  f"valid element {jelem(e)}: area {ar_before[i - a]} -> {ar_after[i - a]}, expected {ref}")
         # intersection results unchanged (inputs with holes opposite to their shell)
         if deep:
             ok_rows = [i - a for i in range(a, b)
@@ -230,8 +236,32 @@ def check_array(col, kind, st, T, elems, boxes, qpts, deep):
     col.sample({"kind": kind, "subtype": st, "elems": [jelem(e) for e in elems][:2]})
 
 
+def wide_polygons(st):
+    """thin and fat triangles over the extreme / small values of the subtype's exactly representable
+    integer range, as shells (both directions occur: every vertex permutation) and as holes"""
+    from .c14 import WIDE_M
+    M = WIDE_M[st]
+    xs = (-M, -2, 1, M)
+    ys = (-M, -M + 1, -1, 0, 2, M - 1, M)
+    pts = [(x, y) for x in xs for y in ys]
+    out = []
+    big = ((-M, -M), (M, -M), (M, M), (-M, M), (-M, -M))
+    for k, t in enumerate(itertools.permutations(pts, 3)):
+        if k % 3:
+            continue
+        ring = t + (t[0],)
+        if O.signed_area2_ring(ring) == 0:
+            continue
+        out.append((ring,) if k % 2 else (big, ring))
+    return out
+
+
 def plan(ctx):
     units = []
+    for st in L.SUBTYPES:
+        w = wide_polygons(st)
+        for c in range(0, len(w), 1200):
+            units.append(("polygon", "wide:" + st, w[c:c + 1200]))
     for kind, fam in (("polygon", polygon_family(ctx.thorough)), ("multipolygon", multipolygon_family(ctx.thorough))):
         # single-element arrays: every directed structure, with intersection comparison
         for c in range(0, len(fam), 24):
@@ -265,6 +295,9 @@ def run(ctx):
     def work(col, i):
         j = (i + rot) % len(units)
         kind, mode, items = units[j]
+        if mode.startswith("wide:"):
+            check_array(col, kind, mode[5:], (1, 0, 0), list(items) + [None], boxes, qpts, deep=False)
+            return
         for sti, st in enumerate(L.SUBTYPES):
             T = L.transform_for(st, ctx.seed, salt=j)
             if mode == "singles":
